@@ -240,6 +240,37 @@ def analyse24(ck):
         # length shape: len >= 8 and (len - 8) % 21 == 0
         shape = [g for g in mv.gt if g["outcome"] <= {"err"} and ("is_multiple_of" in T.show(g["cond"], maxdepth=6) or "Rem" in T.show(g["cond"], maxdepth=8) or "checked_sub" in T.show(g["cond"], maxdepth=8))]
         ob.add({"C24"}, bool(shape), "CMP", "private-batch/length-shape/" + key, "rejects lengths that are not 8 + 21 * n", mv.loc0, [T.show(g["cond"], maxdepth=5)[:120] for g in mv.gt][:6])
+        # IVL: the guards' terms evaluated on a grid of (length, header[0]) reject exactly what the layout forbids — whatever the form of
+        # the comparisons (a guard that rejects an admissible input is reported as well as one that lets a malformed one through)
+        from . import evalt
+        gl = [g for g in mv.gt if (g["outcome"] & {"err", "panic"})]
+        vcs = [(bb, P.norm(mv.fr.operand_term(t["args"][0]))) for bb, t in vc]
+        bad = []
+        evaluated = 0
+        for n_ in (0, 1, 2, 5, 63, 64, 65):
+            for dl in (-1, 0, 1, 7):
+                L = 8 + 21 * n_ + dl
+                if L < 0:
+                    continue
+                for dh in (-1, 0, 1):
+                    h0 = 2 * n_ + dh if dl == 0 else 2 * max(n_, 1)
+                    if h0 < 0 or (dl != 0 and dh != 0):
+                        continue
+                    env = {("len", pis): L}
+                    for k in range(0, 12):
+                        env[("idx", pis, ("c", k, None))] = h0 if k == 0 else 0
+                    want_reject = not (L >= 8 and (L - 8) % 21 == 0 and 1 <= (L - 8) // 21 <= 64 and h0 == 2 * ((L - 8) // 21))
+                    verdicts = [evalt.guard_rejects(g, env, mv.fr) for g in gl]
+                    for bb_, a_ in vcs:
+                        v_ = evalt.ev(a_, env, mv.fr)
+                        verdicts.append(None if v_ in (evalt.UNK, evalt.NONE, evalt.ERR) or isinstance(v_, bool) else not (1 <= v_ <= 64))
+                    evaluated += 1
+                    got = any(x is True for x in verdicts)
+                    if got != want_reject:
+                        bad.append({"len": L, "pis[0]": h0, "spec": "reject" if want_reject else "accept", "guards": "reject" if got else "no rejection found"})
+        ob.add({"C24"}, not bad and evaluated >= 30, "IVL", "private-batch/acceptance-grid/" + key,
+               "on a grid of %d (length, num_exit_slots) pairs around n = 0, 1, 2, 5, 63, 64, 65 the parser's guard terms reject exactly the inputs that are not 8 + 21n long with 1 <= n <= 64 and pis[0] = 2n" % evaluated,
+               mv.loc0, bad[:6])
     # ---- public batch parser
     mv = e2.MethodView(ck, INPUTS + r"::PublicBatchPublicInputs::try_from_u64_slice$", INPUTS)
     pis = mv.param(1)
